@@ -709,14 +709,112 @@ def _split_chain():
             let={"P": "w.shape[0]"},
             axioms=["implies(" + HYP + ", forall(0, P, lambda a: forall(0, P, lambda b: c07_hs(w, mp, sz, wt, a, b) == " + OALL("P") + ", pat=c07_hs(w, mp, sz, wt, a, b))))"],
             lemmas=L, py=_hs_py, doc="entry (a, b) of sum over cross rows k of w_{k//4}^2 L_k L_k^T, L_k(a) = coefficient of x_a in row k")
-    return DIST, SALL
+    return DIST, OALL("P")
 
 
-_DIST, _SALLF = _split_chain()
+_DIST, _OALLP = _split_chain()
 _SPREQ = [r.replace("regularization_weights", "w").replace("splitted_sizes", "sz").replace("splitted_weights", "wt").replace("splitted_mappings", "mp") for r in _SPLIT_REQ]
 corollary("C07.split.outer_product", props=["C07"], vars={"w": "real[1]", "mp": "int[2]", "sz": "int[1]", "wt": "real[2]"},
           let={"N": "mp.shape[0]", "P": "toint(mp.shape[0] / 4)"},
           requires=_SPREQ + [_DIST],                 # every row lists pairwise distinct pixels (true of the tables reg_split_from returns)
           calls=[("H", U + "pixel_splitted_regularization_matrix_from", {"regularization_weights": "w", "splitted_mappings": "mp", "splitted_sizes": "sz", "splitted_weights": "wt"})],
-          ensures=["forall(0, P, lambda a: forall(0, P, lambda b: H[a, b] == (1e-08 if a == b else 0) + c07_hs(w, mp, sz, wt, a, b)))"],
+          ensures=["forall(0, P, lambda a: forall(0, P, lambda b: H[a, b] == (1e-08 if a == b else 0) + c07_hs(w, mp, sz, wt, a, b)))",
+                   # the same with c07_hs written out: sum_i w_i^2 sum_{j<4} c_{4i+j}(a) c_{4i+j}(b)  (the hypothesis of C07.quadratic_form.split)
+                   "H.shape[0] == P and H.shape[1] == P and forall(0, P, lambda a: forall(0, P, lambda b: H[a, b] == (1e-08 if a == b else 0) + " + _OALLP + "))"],
           sentence="the split-cross matrix is 1e-8 I + sum over cross rows k of w_{k//4}^2 L_k L_k^T (a sum of rank-one PSD terms plus a ridge)")
+
+
+# ==================================================================================================== split-cross scheme: quadratic form
+# x^T H x = 1e-8 |x|^2 + sum_i w_i^2 sum_{j<4} (L_{4i+j} . x)^2,  L_k . x = sum_a c_k(a) x_a = sum_l wt[k, l] x[mp[k, l]]   (rows with
+# distinct entries), hence strictly positive definite.  Two exchanges of sums, each through a two-argument partial sum (c07_rw, c07_zz).
+def _split_qf_chain():
+    S = lambda i, j: "sz[%s * 4 + %s]" % (i, j)
+    C = lambda i, j, a: "c07_sc(mp, wt, %s, %s, %s, %s)" % (i, j, a, S(i, j))
+    macro("c07_dot", ["x", "mp", "sz", "wt", "i", "j", "m"], "sumto(m, lambda a: " + C("i", "j", "a") + " * x[a])",          # L_k . x over the first m pixels
+          py=lambda x, mp, sz, wt, i, j, m: float(sum(wt[4 * i + j, l] * x[mp[4 * i + j, l]] for l in range(int(sz[4 * i + j])) if mp[4 * i + j, l] < m)))
+    DOT = lambda i, j, mm: "c07_dot(x, mp, sz, wt, %s, %s, %s)" % (i, j, mm)
+    OALL = lambda n, a, b: "sumto(%s, lambda i: w[i] * w[i] * sumto(4, lambda j: (%s * %s)))" % (n, C("i", "j", a), C("i", "j", b))
+    YN = lambda n, a: "sumto(%s, lambda i: w[i] * w[i] * sumto(4, lambda j: %s * %s))" % (n, C("i", "j", a), DOT("i", "j", "P"))
+    HYP = ("x.shape[0] == P and w.shape[0] == P and mp.shape[0] >= 4 * P and sz.shape[0] == mp.shape[0] and wt.shape[0] == mp.shape[0] and wt.shape[1] == mp.shape[1]"
+           " and forall(0, mp.shape[0], lambda k: 0 <= sz[k] and sz[k] <= mp.shape[1])")
+    HDEF = "H.shape[0] == P and H.shape[1] == P and forall(0, P, lambda a: forall(0, P, lambda b: H[a, b] == (1e-08 if a == b else 0) + " + OALL("P", "a", "b") + "))"
+    RW = lambda a, n, mm: "c07_rw(x, w, mp, sz, wt, %s, %s, %s)" % (a, n, mm)
+    ZZ = lambda n, mm: "c07_zz(x, w, mp, sz, wt, %s, %s)" % (n, mm)
+    AR = [("x", "real[1]"), ("w", "real[1]"), ("mp", "int[2]"), ("sz", "int[1]"), ("wt", "real[2]")]
+
+    def cpy(mp, sz, wt, i, j, a):
+        return sum(wt[4 * i + j, l] for l in range(int(sz[4 * i + j])) if mp[4 * i + j, l] == a)
+
+    def dotpy(x, mp, sz, wt, i, j, m):
+        return sum(cpy(mp, sz, wt, i, j, a) * x[a] for a in range(m))
+
+    def rw_py(x, w, mp, sz, wt, a, n, m):
+        return float(sum(sum(w[i] ** 2 * sum(cpy(mp, sz, wt, i, j, a) * cpy(mp, sz, wt, i, j, b) for j in range(4)) for i in range(n)) * x[b] for b in range(m)))
+
+    def zz_py(x, w, mp, sz, wt, n, m):
+        P = len(x)
+        return float(sum(x[a] * sum(w[i] ** 2 * sum(cpy(mp, sz, wt, i, j, a) * dotpy(x, mp, sz, wt, i, j, P) for j in range(4)) for i in range(n)) for a in range(m)))
+
+    # c07_rw(a, n, m) = sum_{b<m} (sum_{i<n} w_i^2 sum_j c(a) c(b)) x_b ;  c07_zz(n, m) = sum_{a<m} x_a sum_{i<n} w_i^2 sum_j c(a) (L . x)
+    spec_fn("c07_rw", params=AR + [("a", "int"), ("n", "int"), ("m", "int")], ret="real", let={"P": "x.shape[0]"},
+            axioms=["implies(" + HYP + ", forall(0, P, lambda a: forall(0, P + 1, lambda n: " + RW("a", "n", "0") + " == 0, pat=" + RW("a", "n", "0") + ")))",
+                    "implies(" + HYP + ", forall(0, P, lambda a: forall(0, P + 1, lambda n: forall(0, P, lambda m: " + RW("a", "n", "m + 1") + " == " + RW("a", "n", "m") + " + " + OALL("n", "a", "m") + " * x[m],"
+                    " pat=" + RW("a", "n", "m + 1") + "))))"], py=rw_py)
+    spec_fn("c07_zz", params=AR + [("n", "int"), ("m", "int")], ret="real", let={"P": "x.shape[0]"},
+            axioms=["implies(" + HYP + ", forall(0, P + 1, lambda n: " + ZZ("n", "0") + " == 0, pat=" + ZZ("n", "0") + "))",
+                    "implies(" + HYP + ", forall(0, P + 1, lambda n: forall(0, P, lambda m: " + ZZ("n", "m + 1") + " == " + ZZ("n", "m") + " + x[m] * " + YN("n", "m") + ", pat=" + ZZ("n", "m + 1") + ")))"],
+            py=zz_py)
+    L = []
+
+    def lem(name, stmt, induct=None, hi=None, export=False):
+        L.append(dict(name=name, induct=induct, lo=0, hi=hi, stmt=stmt, export=export) if induct else dict(name=name, noinduct=True, stmt=stmt, export=export))
+
+    CJ = lambda jn, n, a, what: "sumto(%s, lambda j: %s * %s)" % (jn, C(n, "j", a), what)
+    DJ = lambda jn, n, mm: "sumto(%s, lambda j: %s * %s)" % (jn, DOT(n, "j", "P"), DOT(n, "j", mm))
+    CD = lambda jn, n, a: "sumto(%s, lambda j: %s * %s)" % (jn, C(n, "j", a), DOT(n, "j", "P"))
+    DSQ = lambda jn, n: "sumto(%s, lambda j: %s * %s)" % (jn, DOT(n, "j", "P"), DOT(n, "j", "P"))
+    SQS = lambda n: "sumto(%s, lambda i: w[i] * w[i] * %s)" % (n, DSQ("4", "i"))
+    X2S = lambda n: "sumto(%s, lambda a: x[a] * x[a])" % n
+    QS = lambda n: "c07_qs(H, x, w, mp, sz, wt, %s)" % n
+    # first exchange: (H x)_a = 1e-8 x_a + sum_i w_i^2 sum_j c_k(a) (L_k . x)
+    lem("X0", "forall(0, P, lambda n: forall(0, P, lambda a: forall(0, P, lambda m: implies(" + HYP + ", " + CJ("jn", "n", "a", DOT("n", "j", "m + 1")) + " == " + CJ("jn", "n", "a", DOT("n", "j", "m"))
+              + " + x[m] * sumto(jn, lambda j: (" + C("n", "j", "a") + " * " + C("n", "j", "m") + "))), pat=" + CJ("jn", "n", "a", DOT("n", "j", "m + 1")) + ")))", "jn", "4")
+    lem("X0z", "forall(0, P, lambda n: forall(0, P, lambda a: implies(" + HYP + ", " + CJ("jn", "n", "a", DOT("n", "j", "0")) + " == 0), pat=" + CJ("jn", "n", "a", DOT("n", "j", "0")) + "))", "jn", "4")
+    lem("Xz", "forall(0, P, lambda a: implies(" + HYP + ", " + RW("a", "0", "m") + " == 0), pat=" + RW("a", "0", "m") + ")", "m", "P")
+    lem("X1", "forall(0, P, lambda a: forall(0, P, lambda n: implies(" + HYP + ", " + RW("a", "n + 1", "m") + " == " + RW("a", "n", "m") + " + w[n] * w[n] * " + CJ("4", "n", "a", DOT("n", "j", "m"))
+              + "), pat=" + RW("a", "n + 1", "m") + "))", "m", "P")
+    lem("X2", "forall(0, P, lambda a: implies(" + HYP + ", " + RW("a", "n", "P") + " == " + YN("n", "a") + "), pat=" + RW("a", "n", "P") + ")", "n", "P")
+    lem("X3", "forall(0, P, lambda a: implies(" + HYP + " and " + HDEF + ", c07_RA(H, x, a, m) == (1e-08 * x[a] if a < m else 0) + " + RW("a", "P", "m") + "), pat=c07_RA(H, x, a, m))", "m", "P")
+    lem("RowS", "forall(0, P, lambda a: implies(" + HYP + " and " + HDEF + ", c07_RA(H, x, a, P) == 1e-08 * x[a] + " + YN("P", "a") + "), pat=c07_RA(H, x, a, P))")
+    # second exchange: sum_a x_a sum_i w_i^2 sum_j c_k(a) (L_k . x) = sum_i w_i^2 sum_j (L_k . x)^2
+    lem("X5l", "forall(0, P, lambda n: forall(0, P, lambda m: implies(" + HYP + ", " + DJ("jn", "n", "m + 1") + " == " + DJ("jn", "n", "m") + " + x[m] * " + CD("jn", "n", "m") + "), pat=" + DJ("jn", "n", "m + 1") + "))", "jn", "4")
+    lem("X5z", "forall(0, P, lambda n: implies(" + HYP + ", " + DJ("jn", "n", "0") + " == 0), pat=" + DJ("jn", "n", "0") + ")", "jn", "4")
+    lem("X4z", "implies(" + HYP + ", " + ZZ("0", "m") + " == 0)", "m", "P")
+    lem("X4", "forall(0, P, lambda n: implies(" + HYP + ", " + ZZ("n + 1", "m") + " == " + ZZ("n", "m") + " + w[n] * w[n] * " + DJ("4", "n", "m") + "), pat=" + ZZ("n + 1", "m") + ")", "m", "P")
+    lem("X5b", "forall(0, P, lambda n: forall(P, P + 1, lambda m: implies(" + HYP + ", " + DJ("jn", "n", "m") + " == " + DSQ("jn", "n") + "), pat=" + DJ("jn", "n", "m") + "))", "jn", "4")
+    lem("X5", "implies(" + HYP + ", " + ZZ("n", "P") + " == " + SQS("n") + ")", "n", "P")
+    lem("X6", "implies(" + HYP + " and " + HDEF + ", " + QS("m") + " == 1e-08 * " + X2S("m") + " + " + ZZ("P", "m") + ")", "m", "P")
+    lem("QF", "implies(" + HYP + " and " + HDEF + ", " + QS("P") + " == 1e-08 * " + X2S("P") + " + " + SQS("P") + ")", export=True)
+    lem("N1", "forall(0, P, lambda i: implies(" + HYP + ", " + DSQ("jn", "i") + " >= 0), pat=" + DSQ("jn", "i") + ")", "jn", "4")
+    lem("N2", "implies(" + HYP + ", " + SQS("n") + " >= 0 and " + X2S("n") + " >= 0 and implies(exists(0, n, lambda a: x[a] != 0), " + X2S("n") + " > 0))", "n", "P")
+    lem("PD", "implies(" + HYP + ", " + SQS("P") + " >= 0 and " + X2S("P") + " >= 0 and implies(exists(0, P, lambda a: x[a] != 0), " + X2S("P") + " > 0))", export=True)
+    spec_fn("c07_qs", params=[("H", "real[2]")] + AR + [("n", "int")], ret="real", let={"P": "x.shape[0]"},
+            axioms=["implies(H.shape[0] == P and H.shape[1] == P, forall(0, P + 1, lambda n: " + QS("n") + " == sumto(n, lambda a: x[a] * c07_RA(H, x, a, P)), pat=" + QS("n") + "))"],
+            lemmas=L, py=lambda H, x, w, mp, sz, wt, n: _q_py(H, x, n), doc="x^T H x by rows; lemmas: the quadratic-form identity of the split-cross scheme")
+    return SQS("P"), HYP, HDEF
+
+
+_SQSP, _SQHYP, _SQHDEF = _split_qf_chain()
+# The hypothesis _SQHDEF is, verbatim, the second conclusion of C07.split.outer_product (the outer-product form of the kernel's result);
+# the two corollaries are kept apart because in a joint proof context the shifted-sum lemma LA2 of c07_hs no longer goes through by
+# e-matching.  (The call below only anchors the corollary; its result is not used.)
+corollary("C07.quadratic_form.split", props=["C07"],
+          vars={"H": "real[2]", "w": "real[1]", "mp": "int[2]", "sz": "int[1]", "wt": "real[2]", "x": "real[1]"}, let={"P": "x.shape[0]"},
+          requires=[_SQHYP, _SQHDEF],
+          calls=[("Z0", U + "zeroth_regularization_matrix_from", {"coefficient": "0", "pixels": "0"})],
+          ensures=["c07_qs(H, x, w, mp, sz, wt, P) == " + _XHX,
+                   # x^T H x = 1e-8 |x|^2 + sum_i w_i^2 sum_{j<4} (L_{4i+j} . x)^2
+                   _XHX + " == 1e-08 * " + _X2P + " + " + _SQSP,
+                   _XHX + " >= 1e-08 * " + _X2P,
+                   "implies(exists(0, P, lambda a: x[a] != 0), " + _XHX + " > 0)"],
+          sentence="for the split-cross schemes x^T H x = 1e-8 |x|^2 + sum over cross rows of w^2 (L_k . x)^2, hence strictly positive definite")
